@@ -26,6 +26,12 @@ package main
 // as in a hand-made configuration). What heimdall's configuration loader yields for a configuration that says nothing
 // about the services (the documented defaults) is reported by `{"fam":"entryview","op":"defaults"}`.
 
+//
+// A case may say `via`: the services are then configured with `trusted_proxies` (the harness connects from 127.0.0.1,
+// which the list covers) and the HTTP decision service is asked by a trusted gateway that delegates the decision
+// (c13Via, c13Delegated): a request of the gateway's own carrying the logical request in X-Forwarded-Method / -Proto /
+// -Host / -Uri. The proxy service and the Envoy gRPC service still receive the logical request itself.
+
 import (
 	"bufio"
 	"bytes"
@@ -234,6 +240,44 @@ type c13Req struct {
 	Headers   [][]string `json:"headers"`
 	Body      *string    `json:"body"`
 	EnvoyBody string     `json:"envoy_body"` // raw | str
+}
+
+// c13Via: a trusted gateway delegates the decision to the HTTP decision service (Traefik forwardAuth, NGINX
+// auth_request, …). `serve.decision.trusted_proxies` / `serve.proxy.trusted_proxies` = Proxies (the peer — the harness
+// on 127.0.0.1 — is one of them); the decision service receives a request of the gateway's own (Method — absent: the
+// client's method —, request target Path, transport TLS or not) which describes the logical request in
+// X-Forwarded-Method / -Proto / -Host / -Uri and passes the Host line, the other header lines and the body on. The
+// proxy service and the Envoy gRPC service receive the logical request itself.
+type c13Via struct {
+	Proxies []string `json:"proxies"`
+	Method  *string  `json:"method"`
+	TLS     bool     `json:"tls"`
+	Path    string   `json:"path"`
+}
+
+// c13Delegated: the message the gateway sends to the decision service for the logical request (Model: forwardAuth)
+func c13Delegated(via *c13Via, lr *c13Req) *c13Req {
+	target := lr.Path
+	if lr.Query != "" {
+		target += "?" + lr.Query
+	}
+
+	method := lr.Method
+	if via.Method != nil {
+		method = *via.Method
+	}
+
+	headers := [][]string{
+		{"X-Forwarded-Method", lr.Method},
+		{"X-Forwarded-Proto", map[bool]string{false: "http", true: "https"}[lr.TLS]},
+		{"X-Forwarded-Host", lr.Host},
+		{"X-Forwarded-Uri", target},
+	}
+
+	return &c13Req{
+		Method: method, TLS: via.TLS, Host: lr.Host, Path: via.Path, Query: "",
+		Headers: append(headers, lr.Headers...), Body: lr.Body, EnvoyBody: lr.EnvoyBody,
+	}
 }
 
 type c13Spy struct {
@@ -671,8 +715,8 @@ func c13Logger(level string) (zerolog.Logger, error) {
 
 // stack starts (once per response configuration, log level and buffer limits) the real decision, proxy and Envoy
 // ext_authz services
-func (svc *c13Services) stack(rc *c13Respond, level string, lim c13Limits) (*c13Stack, error) {
-	key := fmt.Sprintf("%+v|%s|%+v", *rc, level, lim)
+func (svc *c13Services) stack(rc *c13Respond, level string, lim c13Limits, trusted []string) (*c13Stack, error) {
+	key := fmt.Sprintf("%+v|%s|%+v|%q", *rc, level, lim, trusted)
 	if st, ok := svc.stacks[key]; ok {
 		return st, nil
 	}
@@ -698,6 +742,11 @@ func (svc *c13Services) stack(rc *c13Respond, level string, lim c13Limits) (*c13
 		Host: "127.0.0.1", Respond: respond,
 		BufferLimit: config.BufferLimit{Read: bytesize.ByteSize(lim.Read), Write: bytesize.ByteSize(lim.Write)}, //nolint:gosec
 	}
+
+	if trusted != nil {
+		sc.TrustedProxies = &trusted
+	}
+
 	conf := &config.Configuration{Serve: config.ServeConfig{Decision: sc, Proxy: sc}}
 
 	serve := func(srv *http.Server) (string, string, error) {
@@ -1092,6 +1141,7 @@ func runEntryView(c map[string]any) (any, error) {
 		spy c13Spy
 		rc  c13Respond
 		lim c13Limits
+		via *c13Via
 	)
 
 	for key, dst := range map[string]any{"req": &lr, "spy": &spy, "respond": &rc, "limits": &lim} {
@@ -1109,7 +1159,24 @@ func runEntryView(c map[string]any) (any, error) {
 		}
 	}
 
-	st, err := svc.stack(&rc, getStr(c, "log"), lim)
+	if c["via"] != nil {
+		data, err := json.Marshal(c["via"])
+		if err != nil {
+			return nil, err
+		}
+
+		via = &c13Via{}
+		if err = json.Unmarshal(data, via); err != nil {
+			return nil, err
+		}
+	}
+
+	var trusted []string
+	if via != nil {
+		trusted = append([]string{}, via.Proxies...)
+	}
+
+	st, err := svc.stack(&rc, getStr(c, "log"), lim, trusted)
 	if err != nil {
 		return nil, err
 	}
@@ -1126,12 +1193,19 @@ func runEntryView(c map[string]any) (any, error) {
 	svc.decSwitch.set(exec)
 	c13TakeSpy(spy)
 
+	// what the decision service receives: the logical request itself, or the message of the gateway that delegates
+	// the decision
+	wire := &lr
+	if via != nil {
+		wire = c13Delegated(via, &lr)
+	}
+
 	addr := svc.decision
-	if lr.TLS {
+	if wire.TLS {
 		addr = svc.decisionTLS
 	}
 
-	resp, err := c13WireHTTP(addr, &lr)
+	resp, err := c13WireHTTP(addr, wire)
 	if err != nil {
 		res["decision"] = map[string]any{"dec": "transport", "why": err.Error()}
 	} else {
